@@ -983,9 +983,9 @@ def post_witness(prop):
 
 PROPS = {
     "C01": dict(module="FV.Props.C01", theorems=["FV.Props.C01_validate_total", "FV.Props.C01_from_bytes_total"], suites=["bytes"], proj=proj_C01, oracle=oracle_C01),
-    "C02": dict(module="FV.Props.C02", theorems=["FV.Props.C02_view_within", "FV.Props.C02_truncation_validates"], suites=["bytes"], proj=proj_C02, oracle=oracle_C02),
+    "C02": dict(module="FV.Props.C02", theorems=["FV.Props.C02_view_within", "FV.Props.C02_truncation_validates", "FV.Props.C02_deep_read_total"], suites=["bytes"], proj=proj_C02, oracle=oracle_C02),
     "C04": dict(module="FV.Props.C04", theorems=["FV.Props.C04_view_fits", "FV.Props.C04_ceil_least", "FV.Props.C04_floor_greatest", "FV.Props.C04_positions_eq_c", "FV.Props.C04_struct_size_eq_c", "FV.Props.C04_enum_data_offset_eq_c", "FV.Props.C04_vec_data_offset_eq_c"], suites=["bytes"], proj=proj_C04, oracle=oracle_C04),
-    "C05": dict(module="FV.Props.C05", theorems=["FV.Props.C05_size_exact"], suites=["bytes", "emplace"], proj=proj_C05, oracle=oracle_C05),
+    "C05": dict(module="FV.Props.C05", theorems=["FV.Props.C05_size_exact", "FV.Props.C05_truncation_same_content"], suites=["bytes", "emplace"], proj=proj_C05, oracle=oracle_C05),
     "C03": dict(module="FV.Props.C03", theorems=["FV.Props.C03_emplace_validates_partial", "FV.Props.C03_vec_from_iterator", "FV.emplaceU_ok", "FV.flexFill_spec"], suites=["emplace"], proj=proj_C03, oracle=oracle_C03),
     "C15": dict(module="FV.Props.C15", theorems=["FV.Props.C15_emplace_total_partial", "FV.Props.C15_vec_accepts_iff_fits"], suites=["emplace"], proj=proj_C15, oracle=oracle_C15, post=post_C15),
     "C18": dict(module="FV.Props.C18", theorems=["FV.Props.C18_vec_from_iterator_partial", "FV.Props.C18_flex_from_iterator_partial", "FV.Props.C18_nested_enum_counterexample"], suites=["emplace"], proj=proj_C18, oracle=oracle_C18),
@@ -1001,7 +1001,7 @@ PROPS = {
     "C16": dict(module="FV.Props.C16", theorems=["FV.Props.C16_size", "FV.Props.C16_byte_order", "FV.Props.C16_native_roundtrip", "FV.Props.C16_bytes_roundtrip", "FV.Props.C16_eq_iff", "FV.Props.C16_delegates", "FV.Props.C16_bool_validate"], suites=["portable"], proj=proj_C16, oracle=oracle_C16),
     "C17": dict(module="FV.Props.C17", theorems=["FV.Props.C17_align_one", "FV.Props.C17_no_padding"], suites=["emplace", "bytes"], proj=proj_C17, oracle=oracle_C17, post=post_C17),
     "C19": dict(module="FV.Props.C19", theorems=["FV.Props.C19_bool", "FV.Props.C19_tag", "FV.Props.C19_fields", "FV.Props.C19_array", "FV.Props.C19_vec_elems"], suites=["bytes"], proj=proj_C19, oracle=oracle_C19),
-    "C06": dict(module="FV.Props.C06", theorems=["FV.Props.C06_prefix_insufficient", "FV.Props.C06_extension_same"], suites=["bytes"], proj=proj_C06, oracle=oracle_C06),
+    "C06": dict(module="FV.Props.C06", theorems=["FV.Props.C06_prefix_insufficient", "FV.Props.C06_extension_same", "FV.Props.C06_extension_same_content"], suites=["bytes"], proj=proj_C06, oracle=oracle_C06),
 }
 
 # ------------------------------------------------------------------------------------------------
